@@ -30,6 +30,8 @@ def contributions_obligation(dims, cls="BaseEdge"):
     def fn(it):
         edge, err, W, Js, gs = generic_edge(it, dims, cls=cls)
         res = it.call_method(edge, "calc_chi2_gradient_hessian", [])
+        if isinstance(res, Obj) and getattr(res, "tuple_fields", None):
+            res = it.iterate(res, None)          # a NamedTuple result is still a 3-tuple for every consumer
         if not isinstance(res, (tuple, list)) or len(res) != 3:
             raise ObFail("calc_chi2_gradient_hessian does not return (chi2, gradient list, hessian list)")
         chi2, grad, hess = res
@@ -44,8 +46,9 @@ def contributions_obligation(dims, cls="BaseEdge"):
         exp_grad = [(gs[k], it.dot(eW, Js[k], None)) for k in range(len(dims))]
         exp_hess = [((gs[i], gs[j]), it.dot(it.dot(Js[i].T(), W, None), Js[j], None))
                     for i in range(len(dims)) for j in range(i, len(dims))]
-        grad = list(grad)
-        hess = list(hess)
+        grad = [tuple(it.iterate(x, None)) if not isinstance(x, tuple) else x for x in it.iterate(grad, None)]
+        hess = [tuple(it.iterate(x, None)) if not isinstance(x, tuple) else x for x in it.iterate(hess, None)]
+        hess = [(tuple(it.iterate(k_, None)) if not isinstance(k_, tuple) else k_, c_) for k_, c_ in hess]
         if len(grad) != len(exp_grad):
             raise ObFail("%d gradient contributions for %d vertices" % (len(grad), len(dims)))
         used = set()
